@@ -1,7 +1,512 @@
-//! C12 obligations (globs) -- see DESIGN.md section 3.
-use crate::smt::Z3;
-use crate::Ctx;
+//! C12 obligations (globs): per enumerated (glob, options) program the real
+//! GlobBuilder is run; the regex it produced (`Glob::regex()`) is parsed with
+//! the settings globset itself uses and encoded as a bounded NFA run.
+//!
+//!  G-STRAT  the match strategy the glob SET would choose for this glob
+//!           (Glob::verif_strategy, the real MatchStrategy::new) means, for ALL
+//!           paths up to L bytes, the same as the glob's own regex
+//!  G-MEAN   for globs over the simple token subset (literals, ?, *, classes,
+//!           escapes) the regex means what the documented syntax says
+//!           (reference compiled independently from the glob text)
+//!  G-SET    GlobSet::matches(path) == indices of member globs matching
+//!           individually, on solver-generated paths: one path per satisfiable
+//!           combination of member verdicts (concrete execution of the real
+//!           set on solver-chosen inputs)
 
-pub fn run_all(_ctx: &mut Ctx, _z3: &mut Z3, _tier: &str, _seed: u64, _repo: &std::path::Path, _si: usize, _sn: usize, _only: &str) -> usize {
-    0
+use crate::corpus::{hash_str, Rng};
+use crate::nfa::Nfa;
+use crate::smt::{Enc, Verdict, Z3};
+use crate::{Ctx, ObResult};
+use globset::{Glob, GlobBuilder, GlobSetBuilder};
+use regex_syntax::hir::Hir;
+use std::path::Path;
+
+#[derive(Clone, Copy, Debug)]
+pub struct GOpts {
+    pub ci: bool,
+    pub litsep: bool,
+    pub bs: bool,
+    pub empty_alt: bool,
+}
+
+impl GOpts {
+    fn describe(&self) -> String {
+        format!(
+            "{}{}{}{}",
+            if self.ci { " case_insensitive" } else { "" },
+            if self.litsep { " literal_separator" } else { "" },
+            if self.bs { " backslash_escape" } else { " no_backslash_escape" },
+            if self.empty_alt { " empty_alternates" } else { "" }
+        )
+    }
+}
+
+fn build(glob: &str, o: &GOpts) -> Result<Glob, String> {
+    GlobBuilder::new(glob)
+        .case_insensitive(o.ci)
+        .literal_separator(o.litsep)
+        .backslash_escape(o.bs)
+        .empty_alternates(o.empty_alt)
+        .build()
+        .map_err(|e| e.to_string())
+}
+
+fn regex_hir(re: &str) -> Result<Hir, String> {
+    // same syntax settings as globset::new_regex
+    regex_syntax::ParserBuilder::new()
+        .utf8(false)
+        .dot_matches_new_line(true)
+        .build()
+        .parse(re)
+        .map_err(|e| e.to_string())
+}
+
+const TOKENS: &[&str] = &["a", "b", ".", "/", "?", "*", "**", "[ab]", "[!a]", "{a,b}", "\\*", "A", "-", "{a,}", "**/", "/**"];
+
+pub fn glob_corpus(tier: &str, seed: u64, repo: &Path) -> Vec<String> {
+    let mut out: Vec<String> = vec![];
+    // globs from the repository's own tests
+    for f in ["crates/globset/src/glob.rs", "crates/globset/src/lib.rs", "crates/ignore/src/gitignore.rs", "crates/ignore/src/overrides.rs"] {
+        if let Ok(s) = std::fs::read_to_string(repo.join(f)) {
+            let body = match s.find("#[cfg(test)]") {
+                Some(i) => &s[i..],
+                None => &s[..],
+            };
+            let mut rest = body;
+            while let Some(i) = rest.find('"') {
+                let after = &rest[i + 1..];
+                if let Some(j) = after.find('"') {
+                    let lit = &after[..j];
+                    if !lit.is_empty()
+                        && lit.len() <= 12
+                        && !lit.contains('\\')
+                        && !lit.contains(' ')
+                        && lit.chars().any(|c| "*?[{/.".contains(c))
+                    {
+                        out.push(lit.to_string());
+                    }
+                    rest = &after[j + 1..];
+                } else {
+                    break;
+                }
+            }
+        }
+    }
+    for t in TOKENS {
+        out.push(t.to_string());
+    }
+    for a in TOKENS {
+        for b in TOKENS {
+            out.push(format!("{}{}", a, b));
+        }
+    }
+    let mut rng = Rng(seed ^ 0x610b);
+    let n3 = if tier == "thorough" { 6000 } else { 700 };
+    for _ in 0..n3 {
+        let len = 3 + rng.below(2);
+        let mut s = String::new();
+        for _ in 0..len {
+            s.push_str(TOKENS[rng.below(TOKENS.len())]);
+        }
+        out.push(s);
+    }
+    for s in ["*.rs", "*.c", "foo.", "*.", "a.", "**/foo.", "**/*.rs", "src/**", "src/**/*.rs", "*.d/conf", "**/*.d/conf",
+              "a*", "ab*", "a/**", "a/b/**", "*.a/b", "Makefile", "**/Makefile", "*.tar.gz", "foo/*", "*/foo", "**/a/b",
+              "[a-c]x", "{*.a,*.b}", "a?b", "*a", "**/.git", ".*", "*.[ch]"] {
+        out.push(s.to_string());
+    }
+    let mut seen = std::collections::HashSet::new();
+    out.retain(|p| seen.insert(p.clone()));
+    out
+}
+
+fn options_for(glob: &str, tier: &str, seed: u64) -> Vec<GOpts> {
+    let mut all = vec![];
+    for m in 0..16u32 {
+        all.push(GOpts { ci: m & 1 != 0, litsep: m & 2 != 0, bs: m & 4 != 0, empty_alt: m & 8 != 0 });
+    }
+    // defaults of GlobBuilder: backslash_escape on (unix), others off; ripgrep's
+    // gitignore/override/types use literal_separator on
+    let mut out = vec![
+        GOpts { ci: false, litsep: false, bs: true, empty_alt: false },
+        GOpts { ci: false, litsep: true, bs: true, empty_alt: false },
+    ];
+    let mut rng = Rng(hash_str(glob) ^ seed);
+    let k = if tier == "thorough" { 6 } else { 2 };
+    for _ in 0..k {
+        out.push(all[rng.below(16)]);
+    }
+    out
+}
+
+// ---------------------------------------------------------------- SMT helpers
+
+fn bytes_eq_at(l: usize, start: usize, lit: &[u8]) -> String {
+    if start + lit.len() > l {
+        return "false".into();
+    }
+    let mut parts = vec!["true".to_string()];
+    for (k, &c) in lit.iter().enumerate() {
+        parts.push(format!("(= b{} #x{:02x})", start + k, c));
+    }
+    format!("(and {})", parts.join(" "))
+}
+
+/// strategy meaning over spec-level path pieces, as an SMT term on b[0..n)
+fn strategy_term(l: usize, kind: &str, lit: &[u8], component: bool) -> Option<String> {
+    let k = lit.len();
+    let mut alts: Vec<String> = vec!["false".into()];
+    match kind {
+        "Literal" => {
+            alts.push(format!("(and (= n {}) {})", k, bytes_eq_at(l, 0, lit)));
+        }
+        "Prefix" => {
+            alts.push(format!("(and (>= n {}) {})", k, bytes_eq_at(l, 0, lit)));
+        }
+        "Suffix" => {
+            for n0 in k..=l {
+                alts.push(format!("(and (= n {}) {})", n0, bytes_eq_at(l, n0 - k, lit)));
+            }
+            if component && k >= 1 {
+                alts.push(format!("(and (= n {}) {})", k - 1, bytes_eq_at(l, 0, &lit[1..])));
+            }
+        }
+        "BasenameLiteral" => {
+            // basename(path) = bytes after the last '/', non-empty
+            if lit.contains(&b'/') || k == 0 {
+                return Some("false".into());
+            }
+            for n0 in k..=l {
+                let s = n0 - k;
+                let sep = if s == 0 { "true".to_string() } else { format!("(= b{} #x2f)", s - 1) };
+                alts.push(format!("(and (= n {}) {} {})", n0, sep, bytes_eq_at(l, s, lit)));
+            }
+        }
+        "Extension" | "RequiredExtension" => {
+            // ext(path) = suffix of the basename from its last '.'
+            if k == 0 || lit[0] != b'.' || lit[1..].contains(&b'.') || lit.contains(&b'/') {
+                return Some("false".into());
+            }
+            for n0 in k..=l {
+                alts.push(format!("(and (= n {}) {})", n0, bytes_eq_at(l, n0 - k, lit)));
+            }
+        }
+        _ => return None,
+    }
+    Some(format!("(or {})", alts.join(" ")))
+}
+
+fn path_of(bytes: &[u8]) -> std::path::PathBuf {
+    use std::os::unix::ffi::OsStrExt;
+    std::path::PathBuf::from(std::ffi::OsStr::from_bytes(bytes))
+}
+
+fn push(ctx: &mut Ctx, kind: &str, program: &str, status: &str, detail: String, wit: Option<Vec<u8>>, nontrivial: bool) {
+    ctx.results.push(ObResult {
+        kind: kind.to_string(),
+        program: program.to_string(),
+        status: status.to_string(),
+        detail,
+        witness: wit,
+        nontrivial,
+    });
+}
+
+fn witness_bytes(v: &Verdict) -> Option<Vec<u8>> {
+    if let Verdict::Sat { bytes, ints } = v {
+        let n = ints.iter().find(|(k, _)| k == "n").map(|(_, v)| *v).unwrap_or(0) as usize;
+        Some(bytes[..n.min(bytes.len())].to_vec())
+    } else {
+        None
+    }
+}
+
+// ---------------------------------------------------------------- reference (simple subset)
+
+/// Reference compilation of a glob over the simple token subset, written from
+/// the documented syntax; None if the glob uses anything else.
+fn reference_simple(glob: &str, o: &GOpts) -> Option<Hir> {
+    use regex_syntax::hir::{Class, ClassBytes, ClassBytesRange};
+    let any = |litsep: bool| -> Hir {
+        let mut c = ClassBytes::new([ClassBytesRange::new(0, 255)]);
+        if litsep {
+            c = ClassBytes::new([ClassBytesRange::new(0, b'/' - 1), ClassBytesRange::new(b'/' + 1, 255)]);
+        }
+        Hir::class(Class::Bytes(c))
+    };
+    let lit = |c: u8, ci: bool| -> Hir {
+        if ci && c.is_ascii_alphabetic() {
+            Hir::class(Class::Bytes(ClassBytes::new([
+                ClassBytesRange::new(c.to_ascii_lowercase(), c.to_ascii_lowercase()),
+                ClassBytesRange::new(c.to_ascii_uppercase(), c.to_ascii_uppercase()),
+            ])))
+        } else {
+            Hir::literal([c])
+        }
+    };
+    let b = glob.as_bytes();
+    if !glob.is_ascii() {
+        return None;
+    }
+    let mut parts = vec![];
+    let mut i = 0;
+    while i < b.len() {
+        match b[i] {
+            b'*' => {
+                if i + 1 < b.len() && b[i + 1] == b'*' {
+                    return None;
+                }
+                if i > 0 && b[i - 1] == b'*' {
+                    return None;
+                }
+                parts.push(Hir::repetition(regex_syntax::hir::Repetition {
+                    min: 0,
+                    max: None,
+                    greedy: true,
+                    sub: Box::new(any(o.litsep)),
+                }));
+            }
+            b'?' => parts.push(any(o.litsep)),
+            b'{' | b'}' | b',' => return None,
+            b'[' => {
+                // [ab] / [!ab] / [a-c] with plain ASCII members only
+                let mut j = i + 1;
+                let mut neg = false;
+                if j < b.len() && (b[j] == b'!' || b[j] == b'^') {
+                    neg = true;
+                    j += 1;
+                }
+                let mut ranges = vec![];
+                let start = j;
+                while j < b.len() && (b[j] != b']' || j == start) {
+                    if b[j] == b'\\' || b[j] == b'[' {
+                        return None;
+                    }
+                    if j + 2 < b.len() && b[j + 1] == b'-' && b[j + 2] != b']' {
+                        if b[j] > b[j + 2] {
+                            return None;
+                        }
+                        ranges.push(ClassBytesRange::new(b[j], b[j + 2]));
+                        j += 3;
+                    } else {
+                        ranges.push(ClassBytesRange::new(b[j], b[j]));
+                        j += 1;
+                    }
+                }
+                if j >= b.len() {
+                    return None;
+                }
+                let mut c = ClassBytes::new(ranges);
+                if o.ci {
+                    c.case_fold_simple();
+                }
+                if neg {
+                    c.negate();
+                }
+                parts.push(Hir::class(Class::Bytes(c)));
+                i = j;
+            }
+            b'\\' => {
+                if o.bs {
+                    if i + 1 >= b.len() {
+                        return None;
+                    }
+                    parts.push(lit(b[i + 1], o.ci));
+                    i += 1;
+                } else {
+                    parts.push(lit(b'\\', o.ci));
+                }
+            }
+            c => parts.push(lit(c, o.ci)),
+        }
+        i += 1;
+    }
+    Some(Hir::concat(vec![
+        Hir::look(regex_syntax::hir::Look::Start),
+        Hir::concat(parts),
+        Hir::look(regex_syntax::hir::Look::End),
+    ]))
+}
+
+// ---------------------------------------------------------------- driver
+
+pub fn run_all(ctx: &mut Ctx, z3: &mut Z3, tier: &str, seed: u64, repo: &Path, si: usize, sn: usize, only: &str) -> usize {
+    let corpus = glob_corpus(tier, seed, repo);
+    let l = ctx.l;
+    let mut programs = 0usize;
+    let mut idx = 0usize;
+    let mut accepted: Vec<(String, GOpts, Glob)> = vec![];
+    for g in &corpus {
+        if !only.is_empty() && !g.contains(only) {
+            continue;
+        }
+        for o in options_for(g, tier, seed) {
+            idx += 1;
+            if idx % sn != si {
+                continue;
+            }
+            programs += 1;
+            let program = format!("{:?}{}", g, o.describe());
+            let glob = match build(g, &o) {
+                Ok(x) => x,
+                Err(_) => {
+                    ctx.rejected += 1;
+                    continue;
+                }
+            };
+            ctx.accepted += 1;
+            let hir = match regex_hir(glob.regex()) {
+                Ok(h) => h,
+                Err(e) => {
+                    push(ctx, "encoder-validation", &program, "inconclusive", format!("cannot parse the glob's regex: {}", e), None, false);
+                    continue;
+                }
+            };
+            let nfa = match Nfa::from_hir(&hir) {
+                Ok(n) => n,
+                Err(_) => {
+                    ctx.too_big += 1;
+                    continue;
+                }
+            };
+            // encoder validation against the real GlobMatcher (regex only) on samples
+            let matcher = glob.compile_matcher();
+            let mut bad = None;
+            for h in ctx.samples.iter() {
+                let mine = nfa.is_match(h, 0, h.len());
+                let real = matcher.is_match(path_of(h));
+                ctx.validated += 1;
+                if mine != real {
+                    bad = Some(h.clone());
+                    break;
+                }
+            }
+            if let Some(h) = bad {
+                push(ctx, "encoder-validation", &program, "inconclusive", "encoder NFA disagrees with GlobMatcher".into(), Some(h), false);
+                continue;
+            }
+            accepted.push((g.clone(), o, glob.clone()));
+            let nonvac = ctx.samples.iter().any(|h| nfa.is_match(h, 0, h.len())) || {
+                let mut enc = Enc::new(l);
+                let s = enc.sim(&nfa, "0", "n", None);
+                enc.assert(&Enc::any(&s.m));
+                ctx.queries += 1;
+                matches!(z3.check(&enc), Verdict::Sat { .. })
+            };
+
+            // ---- G-STRAT
+            if ctx.want("G-STRAT") {
+                let (kind, lit, component) = glob.verif_strategy();
+                if kind != "Regex" {
+                    if let Some(st) = strategy_term(l, kind, lit.as_bytes(), component) {
+                        let mut enc = Enc::new(l);
+                        let s = enc.sim(&nfa, "0", "n", None);
+                        let re = Enc::any(&s.m);
+                        if kind == "RequiredExtension" {
+                            enc.assert(&format!("(and {} (not {}))", re, st));
+                        } else {
+                            enc.assert(&format!("(xor {} {})", re, st));
+                        }
+                        ctx.queries += 1;
+                        match z3.check(&enc) {
+                            Verdict::Unsat => push(ctx, "G-STRAT", &program, "discharged", format!("{}({:?})", kind, lit), None, nonvac),
+                            v @ Verdict::Sat { .. } => {
+                                let h = witness_bytes(&v).unwrap();
+                                // replay: the real set of this one glob vs the glob alone
+                                let set = GlobSetBuilder::new().add(glob.clone()).build();
+                                let st = match set {
+                                    Ok(set) => {
+                                        let a = set.is_match(path_of(&h));
+                                        let b = matcher.is_match(path_of(&h));
+                                        if a != b { "failed" } else { "inconclusive" }
+                                    }
+                                    Err(_) => "inconclusive",
+                                };
+                                push(ctx, "G-STRAT", &program, st, format!("strategy {}({:?}, component={}) and the glob's regex {} disagree on a path", kind, lit, component, glob.regex()), Some(h), false);
+                            }
+                            Verdict::Unknown(e) => push(ctx, "G-STRAT", &program, "inconclusive", e, None, false),
+                        }
+                    }
+                }
+            }
+
+            // ---- G-MEAN (simple token subset)
+            if ctx.want("G-MEAN") {
+                if let Some(rh) = reference_simple(g, &o) {
+                    if let Ok(rn) = Nfa::from_hir(&rh) {
+                        let mut enc = Enc::new(l);
+                        let a = enc.sim(&nfa, "0", "n", None);
+                        let b = enc.sim(&rn, "0", "n", None);
+                        enc.assert(&format!("(xor {} {})", Enc::any(&a.m), Enc::any(&b.m)));
+                        ctx.queries += 1;
+                        match z3.check(&enc) {
+                            Verdict::Unsat => push(ctx, "G-MEAN", &program, "discharged", String::new(), None, nonvac),
+                            v @ Verdict::Sat { .. } => {
+                                let h = witness_bytes(&v).unwrap();
+                                let real = matcher.is_match(path_of(&h));
+                                let want = rn.is_match(&h, 0, h.len());
+                                let st = if real != want { "failed" } else { "inconclusive" };
+                                push(ctx, "G-MEAN", &program, st, format!("glob matcher says {}, documented meaning says {} (regex {})", real, want, glob.regex()), Some(h), false);
+                            }
+                            Verdict::Unknown(e) => push(ctx, "G-MEAN", &program, "inconclusive", e, None, false),
+                        }
+                    }
+                }
+            }
+        }
+    }
+
+    // ---- G-SET: sets of 2..3 accepted globs; one solver-chosen path per
+    // satisfiable combination of member verdicts, executed on the real set
+    if ctx.want("G-SET") && accepted.len() >= 2 {
+        let mut rng = Rng(seed ^ 0x5e7 ^ (si as u64) << 8);
+        let nsets = if tier == "thorough" { 400 } else { 60 };
+        for _ in 0..nsets {
+            let k = 2 + rng.below(2);
+            let members: Vec<&(String, GOpts, Glob)> = (0..k).map(|_| &accepted[rng.below(accepted.len())]).collect();
+            let program = format!("set{:?}", members.iter().map(|m| format!("{}{}", m.0, m.1.describe())).collect::<Vec<_>>());
+            let mut b = GlobSetBuilder::new();
+            for m in &members {
+                b.add(m.2.clone());
+            }
+            let set = match b.build() {
+                Ok(s) => s,
+                Err(_) => continue,
+            };
+            let nfas: Vec<Nfa> = members.iter().filter_map(|m| regex_hir(m.2.regex()).ok().and_then(|h| Nfa::from_hir(&h).ok())).collect();
+            if nfas.len() != k {
+                continue;
+            }
+            let matchers: Vec<_> = members.iter().map(|m| m.2.compile_matcher()).collect();
+            let mut classes = 0;
+            let mut bad: Option<(Vec<u8>, Vec<usize>, Vec<usize>)> = None;
+            for combo in 0..(1u32 << k) {
+                let mut enc = Enc::new(l);
+                for (i, nfa) in nfas.iter().enumerate() {
+                    let s = enc.sim(nfa, "0", "n", None);
+                    let t = Enc::any(&s.m);
+                    if combo >> i & 1 == 1 {
+                        enc.assert(&t);
+                    } else {
+                        enc.assert(&format!("(not {})", t));
+                    }
+                }
+                ctx.queries += 1;
+                if let v @ Verdict::Sat { .. } = z3.check(&enc) {
+                    classes += 1;
+                    let h = witness_bytes(&v).unwrap();
+                    let got = set.matches(path_of(&h));
+                    let want: Vec<usize> = (0..k).filter(|&i| matchers[i].is_match(path_of(&h))).collect();
+                    if got != want && bad.is_none() {
+                        bad = Some((h, got, want));
+                    }
+                }
+            }
+            match bad {
+                None => push(ctx, "G-SET", &program, "discharged", format!("{} satisfiable verdict combinations executed", classes), None, classes >= 2),
+                Some((h, got, want)) => push(ctx, "G-SET", &program, "failed", format!("GlobSet::matches = {:?}, member globs individually = {:?}", got, want), Some(h), false),
+            }
+        }
+    }
+    programs
 }
